@@ -238,7 +238,7 @@ u8_t *get_v_opt(int argc, char *argv[])
     memset(fout, 0, sizeof(fout));
     fout_fits = true;
     int option_index = 0;
-    optind = 1;
+    optind = 0; // 0, not 1: makes getopt_long re-initialise its private scan state (a scan abandoned inside "-abc" leaves a cursor behind)
     vpak_t *res = new vpak_t;
     res->mode = 'u';
     res->ctype = -1;
